@@ -391,18 +391,35 @@ def replay_duffy(adjacency, n, a, b, c, d):
 
 
 def ob_duffy_counts(adjacency):
-    """post (sizes n=1..5): rule(n, adj) returns exactly number_of_quadrature_points(n, adj) = R n^4 columns, all finite numbers."""
+    """post: for the supported singular orders (those of the 1-d Gauss rule, 1..30; sampled 1..6, 10, 20, 21, 25, 30) rule(n, adj) returns exactly
+    number_of_quadrature_points(n, adj) = R n^4 columns of finite numbers whose weights sum to the measure of the integration domain (1/4); orders outside 1..30 are
+    rejected with ValueError."""
     from bempp_cl.api.integration import duffy_galerkin as dg
 
-    for n in range(1, 6):
-        pt, pr, w = dg.rule(n, adjacency)
+    for n in (1, 2, 3, 4, 5, 6, 10, 20, 21, 25, 30):
+        try:
+            pt, pr, w = dg.rule(n, adjacency)
+        except Exception as ex:  # noqa
+            return violated("rule(%d, %s) raises %s: %s although number_of_quadrature_points advertises %s points and gauss.rule(%d) exists"
+                            % (n, adjacency, type(ex).__name__, ex, dg.number_of_quadrature_points(n, adjacency), n), witness={"order": n}, signature="duffy-count/" + adjacency,
+                            replay={"confirmed": True})
         adv = dg.number_of_quadrature_points(n, adjacency)
         if adv != ADJ[adjacency] * n**4 or pt.shape != (2, adv) or pr.shape != (2, adv) or w.shape != (adv,):
             return violated("rule(%d,%s): %s columns, advertised %s, required %d" % (n, adjacency, pt.shape, adv, ADJ[adjacency] * n**4),
                             witness={"order": n}, signature="duffy-count/" + adjacency, replay={"confirmed": True})
         if not (np.all(np.isfinite(pt)) and np.all(np.isfinite(pr)) and np.all(np.isfinite(w))):
             return violated("rule(%d,%s) returns non-finite entries" % (n, adjacency), signature="duffy-count/" + adjacency, replay={"confirmed": True})
-    return held("n = 1..5")
+        if n >= 2 and abs(float(np.sum(w)) - 0.25) > 1e-11:      # constants are integrated exactly from order 2 on (degree 2n - 4 >= 0)
+            return violated("rule(%d,%s): weights sum to %.15g, not 1/4" % (n, adjacency, float(np.sum(w))), witness={"order": n}, signature="duffy-count/" + adjacency, replay={"confirmed": True})
+    for n in (0, 31):
+        try:
+            dg.rule(n, adjacency)
+        except ValueError:
+            continue
+        except Exception as ex:  # noqa
+            return violated("rule(%d, %s) raises %s instead of ValueError" % (n, adjacency, type(ex).__name__), witness={"order": n}, signature="duffy-range/" + adjacency, replay={"confirmed": True})
+        return violated("rule(%d, %s) is accepted (orders outside 1..30 must be rejected)" % (n, adjacency), witness={"order": n}, signature="duffy-range/" + adjacency, replay={"confirmed": True})
+    return held("n = 1..6, 10, 20, 21, 25, 30; 0 and 31 rejected")
 
 
 def ob_duffy_numeric_exact(adjacency, n):
